@@ -44,9 +44,16 @@ def run_text(payload):
             o[k] = {"f1": _cp(f1), "f2": _cp(f(f1))}
         if it.get("lists"):
             for st in lists:
-                e = {"steps": st, "whole": [], "seq": [], "werr": "", "serr": ""}
+                e = {"steps": st, "whole": [], "seq": [], "werr": "", "serr": "", "whole2": [], "seq2": []}
                 try:
-                    e["whole"] = _cp(clean_text(x, real_steps(st)))
+                    w = clean_text(x, real_steps(st))
+                    e["whole"] = _cp(w)
+                    # the same call again on its own output, immediately (same step list object contents)
+                    e["whole2"] = _cp(clean_text(w, real_steps(st)))
+                    y2 = w
+                    for s in st:
+                        y2 = clean_text(y2, real_steps([s]))
+                    e["seq2"] = _cp(y2)
                 except Exception as ex:  # noqa: BLE001
                     e["werr"] = type(ex).__name__
                 try:
